@@ -32,10 +32,20 @@ func walkWithConds(p *Path, f func(e *Event, conds []Cond, inRep []*Event)) {
 			if e.Kind == EvRep && e.Partial && e.Inv != nil {
 				extra = append(extra, Cond{V: e.Inv, Taken: true})
 			}
+			if e.Kind == EvRep && e.Partial {
+				for _, iv := range e.Invs {
+					extra = append(extra, Cond{V: iv, Taken: true})
+				}
+			}
 			for _, arm := range e.Iter {
 				ac := append([]Cond(nil), conds...)
 				if e.Kind == EvRep && e.Inv != nil {
 					ac = append(ac, Cond{V: e.Inv, Taken: true})
+				}
+				if e.Kind == EvRep {
+					for _, iv := range e.Invs {
+						ac = append(ac, Cond{V: iv, Taken: true})
+					}
 				}
 				ac = append(ac, arm.Conds...)
 				r2 := reps
